@@ -723,12 +723,15 @@ def stepCore (e : Env) (line : String) : Env × String :=
       match evalPointNormSq e.w e.ev hp with
       | .ok (v, ev) => pure ({ e with ev := ev }, "ok " ++ showRat v)
       | .error _ => pure (e, "err ValueError")
-    | ["flow", hs, ms] =>
+    | "flow" :: hs :: ms :: rest =>
+      let failAt : Nat := match rest with
+        | [t] => if t.startsWith "failat=" then ((t.drop 7).toString.toNat?).getD 0 else 0
+        | _ => 0
       let h : Heur := if hs == "none" then .none else if hs == "trace" then .trace
         else if hs.startsWith "logdet" then (match (hs.drop 6).toString.toNat? with | some n => .logdet n | none => .invalid)
         else .invalid
       let m : Mode := if ms == "dual" then .dual else if ms == "primal" then .primal else .invalid
-      let fl := solveFlow h m
+      let fl := solveFlowUpTo h m failAt
       let showCall : WCall → String
         | .solve k => s!"solve{k}" | .recover k => s!"recover{k}" | .prepare => "prepare" | .heuristic => "heuristic"
       pure (e, s!"calls={String.intercalate "," (fl.calls.map showCall)} duals={fl.dualsFrom} primal={fl.primalFrom} raises={fl.raises}")
